@@ -292,7 +292,7 @@ def finish(ctx):
         lines.append("VIOLATION property=%s replay=%s" % (ctx.pid, path))
         ctx.log("violation %s: %s" % (sig, detail))
         exit_code = 1
-        if len(reported) >= 5:
+        if len(reported) >= 12:
             break
     broken = []
     if ctx.proof_problems:
